@@ -20,7 +20,7 @@ ASSUMPTIONS = ["the user function does not modify the tree being visited nor *js
 TRUSTED = ["harness numbering of nodes (own pre-order walk over the public iterator API)",
            "linkhash iteration order = insertion order (property C06)"]
 
-_MANIFEST_PENDING = dict(
+MANIFEST = dict(
     text="Lean 4 theorems over a statement-by-statement model of json_visit.c (json_c_visit, _json_c_visit and its member/element "
          "loops; the user function is an arbitrary state-passing function returning any integer): for every tree, every user "
          "function and every initial state the model's result and final user state - hence the recorded sequence of calls "
@@ -230,20 +230,8 @@ def gen(rng, tier):
     c = codes()
     valid, invalid = code_pool(c)
     six = valid + [100, -7]
-    # random trees x random schedules
-    ntrees = 900 if tier == "quick" else 12000
-    for i in range(ntrees):
-        t = rand_tree(rng, rng.choice([1, 2, 3, 3, 4, 5]), rng.choice([3, 6, 10, 16, 30, 60]))
-        txt = t.dump()
-        lines = []
-        for j in range(rng.choice([3, 4, 5])):
-            ff = "" if rng.chance(0.8) else " %d" % rng.choice([0, 1, 2, -1, INT_MAX])
-            lines.append("visit %s %s%s" % (txt, rand_schedule(rng, t, valid, invalid), ff))
-        yield {"lines": lines}
-    # the documented example and the seeded-defect document, every single deviation
     demo = parse_demo()
-    yield from chunks(demo.dump(), itertools.chain(["-"], sweep(demo, six + [2], [])))
-    # exhaustive small scopes
+    # exhaustive small scopes first, so that the first divergence reported is a small one
     if tier == "quick":
         for n in (1, 2, 3):
             for t in small_trees(n):
@@ -256,4 +244,17 @@ def gen(rng, tier):
                 yield from chunks(t.dump(), sweep(t, six + [2], six))
         for t in small_trees(5):
             yield from chunks(t.dump(), sweep(t, six, [c["visitSkip"], c["visitPop"], 100]))
+    # the documented example / the seeded-defect document: every single deviation (thorough: every pair too)
+    yield from chunks(demo.dump(), itertools.chain(["-"], sweep(demo, six + [2], [])))
+    if tier != "quick":
         yield from chunks(demo.dump(), sweep(demo, [], six))
+    # random trees x random schedules
+    ntrees = 3000 if tier == "quick" else 20000
+    for i in range(ntrees):
+        t = rand_tree(rng, rng.choice([1, 2, 3, 3, 4, 5]), rng.choice([3, 6, 10, 16, 30, 60]))
+        txt = t.dump()
+        lines = []
+        for j in range(rng.choice([3, 4, 5])):
+            ff = "" if rng.chance(0.8) else " %d" % rng.choice([0, 1, 2, -1, INT_MAX])
+            lines.append("visit %s %s%s" % (txt, rand_schedule(rng, t, valid, invalid), ff))
+        yield {"lines": lines}
